@@ -20,3 +20,10 @@ def features(prop, violation_json, ops, knobs) -> set:
         except Exception:
             pass
     return out
+
+
+@feature
+def sm_measure_lcm_rows_gt_384(prop, v, ops, knobs):
+    """The mapset being written at the failing step has a measure whose objects need more than 384 rows
+    (least common multiple of the writer's row denominators): tagged by the write oracle itself."""
+    return "[needs>384rows]" in v.get("message", "")
